@@ -100,7 +100,7 @@ def c15():
     chk = Check("C15", "model_checking")
     if chk.tier == "thorough":
         exported = export_storage(chk, "MCStorage_txn.cfg", timeout=3000)
-        exported += export_storage(chk, "MCStorage_sim.cfg", simulate=f"num=40 -depth 40 -seed {chk.seed}")
+        exported += export_storage(chk, "MCStorage_sim.cfg", simulate=f"num=15 -depth 40 -seed {chk.seed}")
         limit = 9000
     else:
         exported = export_storage(chk, "MCStorage_quick.cfg")
@@ -142,7 +142,7 @@ def c16():
     chk = Check("C16", "model_checking")
     exported = export_storage(chk, "MCStorage_cache.cfg")
     if chk.tier == "thorough":
-        exported += export_storage(chk, "MCStorage_sim.cfg", simulate=f"num=40 -depth 50 -seed {chk.seed + 1}")
+        exported += export_storage(chk, "MCStorage_sim.cfg", simulate=f"num=15 -depth 50 -seed {chk.seed + 1}")
         limit = 8000
     else:
         limit = 4000
